@@ -77,6 +77,32 @@ pub fn model(ty: Ty) -> Result<LinModel, String> {
     .clone()
 }
 
+static TINV_CACHE: Cache<Arc<Matrix>> = OnceLock::new();
+static JINV_CACHE: Cache<(Arc<Matrix>, Arc<Matrix>)> = OnceLock::new();
+
+/// T^-1 (Err if T is singular — C07 reports that)
+pub fn model_inverse(ty: Ty) -> Result<Arc<Matrix>, String> {
+    let c = cell(&TINV_CACHE, ty);
+    c.get_or_init(|| {
+        let m = model(ty)?;
+        m.t.inverse().map(Arc::new).ok_or_else(|| "step matrix is singular".to_string())
+    })
+    .clone()
+}
+
+/// (J^-1, L^-1)
+pub fn jump_inverses(ty: Ty) -> Result<(Arc<Matrix>, Arc<Matrix>), String> {
+    let c = cell(&JINV_CACHE, ty);
+    c.get_or_init(|| {
+        let (j, l) = jump_matrices(ty)?;
+        match (j.inverse(), l.inverse()) {
+            (Some(a), Some(b)) => Ok((Arc::new(a), Arc::new(b))),
+            _ => Err("jump matrix is singular".to_string()),
+        }
+    })
+    .clone()
+}
+
 /// (J, L) = (T^(2^(n/2)), T^(2^(3n/4)))
 pub fn jump_matrices(ty: Ty) -> Result<(Arc<Matrix>, Arc<Matrix>), String> {
     let c = cell(&J_CACHE, ty);
